@@ -177,3 +177,46 @@ func H18e_DefaultOpts() {
 	}
 	vp.Assert("verification-options-present", vp.And(o.Verification != nil, o.ExtractOpt.Loader == extract.GRUB))
 }
+
+// H18f: histories on ONE options value and ONE quote object. After a call that returned a state,
+// the caller replaces the policy, the quote stops verifying, or an RTMR of the quote is replaced;
+// the next call goes through both gates and the replay again, for what the objects now contain.
+func H18f_SecondCallSameObjects() {
+	quote := q.Valid("q_", q.Shape{AuthLen: 0, Chain: vp.Bytes("chain", 3)})
+	table, log := vp.Bytes("acpi_table", 5), vp.Bytes("ccel_log", 6)
+	vp.GhostSet(table, "content-id", vp.U64("table_id"))
+	vp.GhostSet(log, "content-id", vp.U64("log_id"))
+	verifyOK = true
+	vopts := &verify.Options{}
+	opts := &ParseTdxCcelOpts{Validation: &validate.Options{}, Verification: vopts, ExtractOpt: extract.Opts{Loader: extract.GRUB}}
+	st1, _ := ParseCcelWithTdQuote(log, table, quote, opts)
+	if st1 == nil {
+		return
+	}
+	vp.Reach("first-call-returned-a-state", true)
+	// what changes before the second call
+	switch vp.Choose("change", 3) {
+	case 0:
+		verifyOK = false
+	case 1:
+		opts.Validation = &validate.Options{TdQuoteBodyOptions: validate.TdQuoteBodyOptions{ReportData: vp.Bytes("want_reportdata", 64)}}
+	case 2:
+		quote.TdQuoteBody.Rtmrs[1] = vp.Bytes("new_rtmr1", 48)
+	}
+	verifyCalls, replayCalls = 0, 0
+	st, err := ParseCcelWithTdQuote(log, table, quote, opts)
+	polErr := validate.TdxQuote(quote, opts.Validation)
+	vp.Reach("second-call-returns-a-state", st != nil)
+	vp.Reach("second-call-rejects", st == nil)
+	vp.Assert("state-xor-error", (st != nil) == (err == nil))
+	vp.Assert("second-call-verifies-again", verifyCalls == 1)
+	vp.Assert("state-only-if-verification-passes-now", vp.Implies(st != nil, verifyOK))
+	vp.Assert("state-only-if-the-current-policy-is-satisfied", vp.Implies(st != nil, polErr == nil))
+	if st != nil {
+		want := register.RTMRBank{}
+		for i := 0; i < 4; i++ {
+			want.RTMRs = append(want.RTMRs, register.RTMR{Index: i, Digest: quote.TdQuoteBody.Rtmrs[i]})
+		}
+		vp.Assert("state-only-if-replay-matches-the-current-rtmrs", vp.And(replayCalls == 1, replayOK(table, log, want)))
+	}
+}
